@@ -262,6 +262,24 @@ func (ns *c07NodeSet) checkValues(e *Env, vals []any, strs []string, exps []stri
 // failure fell back to the unfiltered value).
 func c07NodeFailClosed(e *Env) {
 	r := e.Rep
+	// text around placeholders passes through unchanged, also in front of a placeholder that is never closed
+	// (defect of the unchanged tree, repaired in /repo b52bed8: that text was written twice)
+	for _, tc := range []struct{ text, want string }{
+		{"[{{ value|e }} mid {{ value|e ]", "[&lt;v&gt; mid {{ value|e ]"},
+		{"a {{ b", "a {{ b"},
+		{"x{{ value }}y{{", "x<v>y{{"},
+		{"{{ value|e }}{{ value|e }} tail {{ value", "&lt;v&gt;&lt;v&gt; tail {{ value"},
+	} {
+		eng := twig.New()
+		c07MacroTemplate(eng, "lit", "value", tc.text, true)
+		res := guarded(func() (string, error) { return eng.Render("lit", map[string]any{"v": "<v>"}) })
+		r.Seen("macro-text-literal:"+tc.text, true)
+		if res.Class != "" || res.Out != tc.want {
+			r.Violate(Violation{Key: "macro-text-literal", What: fmt.Sprintf("macro body text %q with value \"<v>\" renders %q (%s), expected %q", tc.text, res.Out, res.Class, tc.want),
+				Broken: "C07 (all other bytes pass through unchanged; macro body route, node.go renderVariableString)",
+				Replay: map[string]any{"kind": "macro-text", "text": tc.text, "got": res.Out, "want": tc.want}})
+		}
+	}
 	vals := []string{"a<&'\">", "<script>alert('x')</script>", "&amp;", "\"", "plain"}
 	for _, ph := range []string{"{{ value|e :html }}", "{{ value | escape : html , x }}", "{{ value|e|e }}", "{{ value|raw|e }}", "{{ value|e('html') }}", "{{ value|escape(\"html\") }}",
 		"{{ value|e|upper }}", "{{ value|upper|escape }}", "{{ value|e | raw }}", "{{ value|e:html:x }}", "{{ value|e() }}", "{{ value| e\t: js }}", "{{ value|E }}", "{{ value|escape|nosuch }}"} {
